@@ -170,7 +170,9 @@ func (v *VM) SetIsHardforkEnabled(f func(config.Hardfork) bool) {
 func (v *VM) SetGasLimit(datoshi int64) {
 	v.gasLimit = datoshi
 	if datoshi > 0 {
-		v.gasLimit *= ExecFeeFactorMultiplier
+		// Don't let it overflow (and become unlimited), no execution can
+		// consume that much anyway.
+		v.gasLimit = min(datoshi, math.MaxInt64/ExecFeeFactorMultiplier) * ExecFeeFactorMultiplier
 	}
 }
 
